@@ -89,7 +89,7 @@ func mathCosh(L *LState) int {
 }
 
 func mathDeg(L *LState) int {
-	L.Push(LNumber(float64(L.CheckNumber(1)) * 180 / math.Pi))
+	L.Push(LNumber(float64(L.CheckNumber(1)) / (math.Pi / 180)))
 	return 1
 }
 
@@ -187,7 +187,7 @@ func mathPow(L *LState) int {
 }
 
 func mathRad(L *LState) int {
-	L.Push(LNumber(float64(L.CheckNumber(1)) * math.Pi / 180))
+	L.Push(LNumber(float64(L.CheckNumber(1)) * (math.Pi / 180)))
 	return 1
 }
 
@@ -212,7 +212,12 @@ func mathRandom(L *LState) int {
 		if min > max {
 			L.ArgError(2, "interval is empty")
 		}
-		L.Push(LNumber(rng.Int63n(int64(max)-int64(min)+1) + int64(min)))
+		if span := int64(max) - int64(min) + 1; span > 0 {
+			L.Push(LNumber(rng.Int63n(span) + int64(min)))
+		} else {
+			// the interval has more than 2^63 members: scale a fraction, as the reference does
+			L.Push(LNumber(math.Floor(rng.Float64()*(float64(max)-float64(min)+1)) + float64(min)))
+		}
 	}
 	return 1
 }
